@@ -1,4 +1,5 @@
 // C02: iCommutator, ACommutator, scalar product against their matrix definitions.
+#define VF_EARLY
 #include "bind.hpp"
 using namespace vf;
 using squids::iCommutator; using squids::ACommutator; using squids::SUTrace;
@@ -107,6 +108,7 @@ int main(int argc, char** argv) {
       if (!(std::fabs(orth) <= 64 * d * d * d * ref::EPS * sc * maxabs(probe(d, w1)))) violation("Tr(A.i[A,B]):nonzero", J().i("d", d).num("value", orth).done());
     }
   }
+  check_early({2});
   finish();
   return 0;
 }
